@@ -215,6 +215,6 @@ Definition display (v : val) : option str :=
 Definition impl_concat (x y : val) : outcome :=
   match x, y with
   | VStr _, _ | _, VStr _ =>
-      match display x, display y with Some a, Some b => Ok (VStr (a ++ b)) | _, _ => Libm end
+      match display x, display y with Some a, Some b => Ok (VStr (a ++ b)) | _, _ => Outside end
   | _, _ => Err
   end.
